@@ -77,12 +77,17 @@ func cksum(be bool, s0, s1 uint32, b []byte) (uint32, uint32) {
 	return s0, s1
 }
 
-func be32(b []byte, off int) uint32       { return binary.BigEndian.Uint32(b[off:]) }
-func put32(b []byte, off int, v uint32)   { binary.BigEndian.PutUint32(b[off:], v) }
-func isBE(b []byte) bool                  { return be32(b, 0)&1 == 1 }
-func nFrames(b []byte, ps int) int        { if len(b) < hdrSize { return 0 }; return (len(b) - hdrSize) / (fhdrSize + ps) }
-func fOff(i, ps int) int                  { return hdrSize + (i-1)*(fhdrSize+ps) } // 1-based frame index
-func clone(b []byte) []byte               { return append([]byte(nil), b...) }
+func be32(b []byte, off int) uint32     { return binary.BigEndian.Uint32(b[off:]) }
+func put32(b []byte, off int, v uint32) { binary.BigEndian.PutUint32(b[off:], v) }
+func isBE(b []byte) bool                { return be32(b, 0)&1 == 1 }
+func nFrames(b []byte, ps int) int {
+	if len(b) < hdrSize {
+		return 0
+	}
+	return (len(b) - hdrSize) / (fhdrSize + ps)
+}
+func fOff(i, ps int) int    { return hdrSize + (i-1)*(fhdrSize+ps) } // 1-based frame index
+func clone(b []byte) []byte { return append([]byte(nil), b...) }
 
 func fixHeader(b []byte) {
 	s0, s1 := cksum(isBE(b), 0, 0, b[:24])
@@ -963,7 +968,7 @@ func runCase(t int, name, kind, desc string, poolPS int, dbb, wal []byte, dir st
 		for _, j := range jl {
 			out.Grow = append(out.Grow, runGrow(wal, j, ps, cids))
 		}
-		out.Chunks = runChunks(wal, ps, len(frames), cids, r)
+		out.Chunks = runChunks(wal, ps, len(frames), cids, r, ngrow < 0)
 	}
 	return out
 }
